@@ -5,6 +5,7 @@ The traversal is driven by this harness in post-order (map_expr_dags interns res
 realise the symbolic degrees); dispatch to the handlers is the real MultiFunction.__call__.
 """
 
+import units._xh_setup  # noqa: F401
 from ufl import (Coefficient, Constant, FunctionSpace, Mesh, SpatialCoordinate, as_vector, dot, grad, inner, interval,
                  tetrahedron, triangle)
 from ufl.algorithms.apply_algebra_lowering import apply_algebra_lowering
